@@ -49,6 +49,7 @@ fn main() {
         "C13" => drive(props::c13::C13, mode, file),
         "C14" => drive(props::c14::C14, mode, file),
         "C15" => drive(props::c15::C15, mode, file),
+        "C16" => drive(props::c16::C16, mode, file),
         "C19" => drive(props::c19::C19, mode, file),
         "C12" => drive(props::c11::C12, mode, file),
         other => {
